@@ -471,4 +471,6 @@ func mkNfs(d disk.Disk) *nfs.Nfs { return starting(func() *nfs.Nfs { return nfs.
 func mkKVS(d disk.Disk, sz uint64) *kvs.KVS {
 	return starting(func() *kvs.KVS { return kvs.MkKVS(d, sz) })
 }
-func simpleRecover(d disk.Disk) *simple.Nfs { return starting(func() *simple.Nfs { return simple.Recover(d) }) }
+func simpleRecover(d disk.Disk) *simple.Nfs {
+	return starting(func() *simple.Nfs { return simple.Recover(d) })
+}
